@@ -876,6 +876,11 @@ def m_mem_take(ci):
         old = ci.ev.load(ci.st, a[1])
         ci.ev.store(ci.st, a[1], ("seq", ()), ci.w)
         return old
+    if a[0] == "ref" and ty in ("u8", "u16", "u32", "u64", "usize", "i8", "i16", "i32", "i64", "isize"):
+        # Default::default() of every primitive integer is 0 (std: `impl Default for u16` "Returns the default value of 0")
+        old = ci.ev.load(ci.st, a[1])
+        ci.ev.store(ci.st, a[1], mk_int(0, ty), ci.w)
+        return old
     raise Unsupported("mem::take of %s" % ty)
 
 
